@@ -63,7 +63,7 @@ func jsonTypeToXValue(data []byte, valType jsonparser.ValueType) XValue {
 }
 
 func jsonToObject(data []byte) *XObject {
-	return NewXLazyObject(func() map[string]XValue {
+	obj := NewXLazyObject(func() map[string]XValue {
 		properties := make(map[string]XValue)
 
 		jsonparser.ObjectEach(data, func(key []byte, value []byte, dataType jsonparser.ValueType, offset int) error {
@@ -72,6 +72,11 @@ func jsonToObject(data []byte) *XObject {
 		})
 		return properties
 	})
+
+	// a document can have a member called __default__: it is read as the object's default, so it has to be
+	// written again when the object is converted back to JSON
+	obj.marshalDefault = true
+	return obj
 }
 
 func jsonToArray(data []byte) *XArray {
